@@ -74,6 +74,9 @@ func (p *Program) closureSkip(roots []*ssa.Function, skip map[string]string) map
 						}
 						continue
 					}
+					for _, fv := range p.funcValuesOf(c.Value, 0, map[ssa.Value]bool{}) {
+						push(fv)
+					}
 					if node != nil {
 						for _, e := range node.Out {
 							if e.Site == x {
@@ -338,4 +341,95 @@ func generationRoots(r *Run) []*ssa.Function {
 		}
 	}
 	return roots
+}
+
+// debugClosure prints the closure of the named roots (debugging aid).
+func debugClosure(p *Program, r *Run, names []string) {
+	var roots []*ssa.Function
+	for _, n := range names {
+		if n == "<generation>" {
+			roots = append(roots, generationRoots(r)...)
+		} else if f := p.Fn(n); f != nil {
+			roots = append(roots, f)
+		}
+	}
+	for _, f := range sortedFuncs(p, p.closureOf(roots)) {
+		fmt.Println("  ", p.fnName(f))
+	}
+}
+
+// funcValuesOf returns the functions of the analysed package that may flow into the function-typed
+// value v: closures, parameters (through every static caller), struct fields (through every store
+// to that field), phis and closure bindings. go/callgraph's CHA/VTA do not resolve dynamic calls
+// inside un-instantiated generic bodies, which is where most of them are here.
+func (p *Program) funcValuesOf(v ssa.Value, depth int, seen map[ssa.Value]bool) []*ssa.Function {
+	if v == nil || depth > 6 || seen[v] {
+		return nil
+	}
+	seen[v] = true
+	var out []*ssa.Function
+	switch x := v.(type) {
+	case *ssa.MakeClosure:
+		f := x.Fn.(*ssa.Function)
+		out = append(out, f)
+	case *ssa.Function:
+		out = append(out, x)
+	case *ssa.Parameter:
+		fn := x.Parent()
+		idx := -1
+		for i, q := range fn.Params {
+			if q == x {
+				idx = i
+			}
+		}
+		for _, g := range p.FuncList {
+			for _, c := range p.calls(g) {
+				sc := c.Common.StaticCallee()
+				if sc == nil {
+					continue
+				}
+				if o := sc.Origin(); o != nil {
+					sc = o
+				}
+				if sc == fn && idx < len(c.Common.Args) {
+					out = append(out, p.funcValuesOf(c.Common.Args[idx], depth+1, seen)...)
+				}
+			}
+		}
+	case *ssa.FreeVar:
+		if b := p.bindOf(x); b != nil {
+			out = append(out, p.funcValuesOf(b, depth+1, seen)...)
+		}
+	case *ssa.Phi:
+		for _, e := range x.Edges {
+			out = append(out, p.funcValuesOf(e, depth+1, seen)...)
+		}
+	case *ssa.ChangeType:
+		out = append(out, p.funcValuesOf(x.X, depth+1, seen)...)
+	case *ssa.UnOp:
+		if x.Op != token.MUL {
+			break
+		}
+		if r := p.resolve(x); r != ssa.Value(x) {
+			out = append(out, p.funcValuesOf(r, depth+1, seen)...)
+			break
+		}
+		if fa, ok := x.X.(*ssa.FieldAddr); ok {
+			owner, field := p.fieldAddrOwner(fa), fieldAddrName(fa)
+			if owner == "" {
+				break
+			}
+			for _, acc := range p.fieldAccesses(owner) {
+				if acc.Field == field && acc.Kind == "write" {
+					out = append(out, p.funcValuesOf(acc.Instr.(*ssa.Store).Val, depth+1, seen)...)
+				}
+			}
+		}
+		if ci := p.cellOf(x.X); ci != nil {
+			for _, st := range ci.stores {
+				out = append(out, p.funcValuesOf(st.Val, depth+1, seen)...)
+			}
+		}
+	}
+	return out
 }
